@@ -77,7 +77,7 @@ def tlc(module, cfg=None, workers=1, env=None, timeout=900, simulate=None, depth
     cfg = cfg or os.path.join(mdir, base + ".cfg")
     meta = workdir("tlc-" + (name or base) + "-" + str(os.getpid()))
     libs = ":".join(d for d in SPEC_DIRS if os.path.abspath(d) != mdir)
-    java = ["java", "-XX:+UseParallelGC", "-Xmx" + xmx, "-DTLA-Library=" + libs]
+    java = ["java", "-XX:+UseParallelGC", "-Xss64m", "-Xmx" + xmx, "-DTLA-Library=" + libs]
     if depthfirst:
         java.append("-Dtlc2.tool.queue.IStateQueue=StateDeque")
     cmd = java + ["-cp", JARS, "tlc2.TLC", "-workers", str(workers), "-metadir", meta, "-config", cfg]
@@ -148,14 +148,17 @@ def tlc_validate(trace_module, trace_path, env=None, timeout=1800, name=None, xm
         e.update(env)
     r = tlc(trace_module, workers=1, env=e, timeout=timeout, name=name, xmx=xmx)
     if not os.path.exists(rej):
-        raise Infra("trace validation did not complete (%s, rc=%s):\n%s" % (trace_module, r["rc"], r["out"][-5000:]))
+        errs = re.findall(r"(?s)Error: .*?(?=\nState \d+:|\Z)", r["out"])
+        raise Infra("trace validation did not complete (%s, rc=%s, trace %s):\n%s\n...\n%s" % (
+            trace_module, r["rc"], trace_path, "\n".join(e[:1500] for e in errs[:3]), r["out"][-600:]))
     recs = read_ndjson(rej)
     if not recs or not recs[0].get("done"):
         raise Infra("trace validation wrote no completion marker: %s" % rej)
     nlines = sum(1 for _ in open(trace_path))
     if recs[0].get("lines") != nlines:
         raise Infra("trace validation consumed %s of %s lines" % (recs[0].get("lines"), nlines))
-    return recs[1:], r
+    r["dropped"] = [x for x in recs[1:] if x.get("msg") == "DROP"]
+    return [x for x in recs[1:] if x.get("msg") != "DROP"], r
 
 
 def split_executions(events):
@@ -170,13 +173,14 @@ def split_executions(events):
     return execs
 
 
-def tlc_validate_sharded(trace_module, events, shards=None, tag="tv", env=None, timeout=1800, xmx="4g"):
+def tlc_validate_sharded(trace_module, events, shards=None, tag="tv", env=None, timeout=1800, xmx="4g", stateless=False):
     """events: list of dicts (executions separated by Reset events).  Shards on execution boundaries,
     validates the shards in parallel, returns (rejects with global 'line' (0-based index into events), stats)."""
     from concurrent.futures import ThreadPoolExecutor
-    execs = split_executions(events)
+    execs = [[ev] for ev in events] if stateless else split_executions(events)
     shards = max(1, min(shards or NCPU, len(execs)))
     wd = workdir(tag + "-" + str(os.getpid()))
+    keep = os.environ.get("VERIF_KEEP")
     per = (len(execs) + shards - 1) // shards
     jobs, off = [], 0
     for s in range(shards):
@@ -194,13 +198,15 @@ def tlc_validate_sharded(trace_module, events, shards=None, tag="tv", env=None, 
         rej, r = tlc_validate(trace_module, p, env=env, timeout=timeout, name=tag + os.path.basename(p), xmx=xmx)
         return [dict(x, line=x["line"] - 1 + o) for x in rej], r
 
-    rejects, gen = [], 0
+    rejects, gen, dropped = [], 0, 0
     with ThreadPoolExecutor(max_workers=shards) as ex:
         for rj, r in ex.map(one, jobs):
             rejects += rj
             gen += r["generated"]
-    shutil.rmtree(wd, ignore_errors=True)
-    return rejects, {"tv_states": gen, "shards": len(jobs)}
+            dropped += len(r["dropped"])
+    if not keep:
+        shutil.rmtree(wd, ignore_errors=True)
+    return rejects, {"tv_states": gen, "shards": len(jobs), "dropped": dropped}
 
 
 # ------------------------------------------------------------------------------- known findings
